@@ -107,6 +107,28 @@ class RecKernel(ModelMixin, TransitionMixin, TuningMixin):
         return WarmupOutcome(0, ks)
 
 
+class RecGenerator:
+    """recording quantity generator: its output identifies the model state it was generated from"""
+    error_book = {0: "no errors"}
+
+    def __init__(self, ident):
+        self.identifier = ident
+        self._model = FakeModel()
+
+    def set_model(self, model):
+        self._model = model
+
+    def has_model(self):
+        return True
+
+    def generate(self, key, ms, epoch):
+        LOG.append(("generate", self.identifier, int(epoch.config.type), epoch.time_in_epoch, epoch.time, key.t, None))
+        return fj.Cell(("q", self.identifier, ms["shared"].v))
+
+
+QG = int(os.environ.get("QG", "0"))          # number of quantity generators
+
+
 def run(schedule, chunk, hist, store_ks=True, upfront=None, tracked=None):
     """schedule: [(type, duration, thinning)] after the initial epoch.  upfront: how many of them are
     configured at construction; the others are appended one at a time once everything configured was sampled."""
@@ -117,7 +139,9 @@ def run(schedule, chunk, hist, store_ks=True, upfront=None, tracked=None):
     cfgs = [EpochConfig(EpochType.INITIAL_VALUES, 1, 1, None)] + [EpochConfig(EpochType(t), d, th, None) for t, d, th in schedule[:upfront]]
     ms = {("p_k%d" % i): fj.Cell(("init", i)) for i in range(nk)}
     ms["shared"] = fj.Cell(("init", "shared"))
-    e = eng.Engine(fj.KeyT(("seed",)), ms, kseq.KernelSequence(kernels), cfgs, chunk, FakeModel(), tracked, store_kernel_states=store_ks, show_progress=False)
+    gens = [RecGenerator(f"g{i}") for i in range(QG)]
+    e = eng.Engine(fj.KeyT(("seed",)), ms, kseq.KernelSequence(kernels), cfgs, chunk, FakeModel(), tracked, store_kernel_states=store_ks, show_progress=False,
+                   quantity_generators=gens)
     e.sample_all_epochs()
     for t, d, th in schedule[upfront:]:
         e.append_epoch(EpochConfig(EpochType(t), d, th, None))
@@ -145,6 +169,7 @@ def expected_log(schedule, nk, hist):
 
 
 def simplify(log):
+    log = [x for x in log if x[0] != "generate"]
     return [(w, int(i[1:])) if w in ("end_warmup", "init") else (w, int(i[1:]), ty, tie, t) for (w, i, ty, tie, t, key, extra) in log]
 
 
@@ -208,6 +233,23 @@ def chains_ok(schedule, chunk, hist, store_ks, upfront) -> bool:
         infos = [c.v for c in ti[f"k{kid}"].cells]
         if infos != [("info", f"k{kid}", 1 + j) for j in range(total)]:      # one info per transition, unthinned, in order
             return False
+    if QG:
+        gq = r.generated_quantities.unwrap().combine_all().unwrap()
+        last = f"k{nk - 1}"
+        for gi in range(QG):
+            want = [("q", f"g{gi}", ("init", "shared"))]
+            t = 1
+            for (ty, d, th) in schedule:
+                want += [("q", f"g{gi}", ("shared", last, t + j - 1)) for j in range(1, d + 1) if j % th == 0]
+                t += d
+            if [c.v for c in gq[f"g{gi}"].cells] != want:
+                return False
+        # one generate call per iteration and generator (plus one for the initial values), each after the last kernel of its iteration
+        gen_calls = [x for x in log if x[0] == "generate"]
+        if len(gen_calls) != QG * (1 + total):
+            return False
+    elif r.generated_quantities.is_some():
+        return False
     ks_opt = r.kernel_states
     if store_ks:
         ks = ks_opt.unwrap().combine_all().unwrap()
